@@ -172,6 +172,7 @@ def _writer_sequence(setup: FuncInfo, unix: bool) -> Tuple[List[str], str]:
 def run(ch: Checker) -> None:
     prog = ch.prog
     ce = ConstEval(prog)
+    ch.rule('C19.8', 'nobody waits without having asked: every unbounded join() of a thread or process is in a function that first asks it to stop (Event.set(), queue.put(False), terminate()); a join on something that only ends when a client acts makes shutdown hang before listeners and files are released', 5)
     ch.rule('C19.6', 'hand-over of accepted connections: delegate_work_to_pool sends the client address exactly under the condition under which RemoteFdExecutor.receive_from_work_queue '
                      'reads one (both decide on unix_socket_path): otherwise the two ends of the pipe disagree about what the next message is and the worker dies on the first connection', 1)
     ch.rule('C19.7', 'who may shut the listeners down: <x>.listeners.shutdown() is called from Proxy.shutdown only (closing the parent\'s copies earlier also unlinks the Unix socket path)', 1)
@@ -452,6 +453,27 @@ def run(ch: Checker) -> None:
     ch.check(sig and jn and all('self.flags.num_workers' in r for r in rng) and len(rng) >= 2, 'C19.3b', wsd, 'workers stop+join',
              'every worker is signalled and joined (loops over num_workers)',
              'ThreadlessPool._shutdown_workers does not signal and join all num_workers workers (calls %s, loops %s)' % (txt, rng))
+    # ---------------- C19.8 nobody waits without having asked
+    n8 = 0
+    for fn in prog.all_functions('proxy', include_inlined=True):
+        if fn.module.name.startswith(('proxy.testing', 'proxy.plugin')):
+            continue
+        joins8 = [c_ for c_ in walk_no_nested(fn.node) if isinstance(c_, ast.Call) and isinstance(c_.func, ast.Attribute) and c_.func.attr == 'join' and not c_.args and not c_.keywords
+                  and not isinstance(c_.func.value, ast.Constant)]
+        if not joins8:
+            continue
+        stops = [norm(c_.func)[:50] for c_ in walk_no_nested(fn.node) if isinstance(c_, ast.Call) and isinstance(c_.func, ast.Attribute) and (
+            (c_.func.attr == 'set' and not c_.args) or
+            (c_.func.attr == 'put' and len(c_.args) == 1 and isinstance(c_.args[0], ast.Constant) and c_.args[0].value in (False, None)) or
+            c_.func.attr in ('terminate', 'kill', 'cancel', 'stop'))]
+        for c_ in joins8:
+            n8 += 1
+            ch.check(bool(stops), 'C19.8', fn, c_, 'the thread / process waited for was asked to stop in the same function (%s)' % ', '.join(stops[:2]),
+                     '%s waits for %s to end without a time limit and without having asked it to stop (no Event.set() / queue.put(False) / terminate() in this function): if that thread or process '
+                     'only ends when a client does something -- e.g. a per-connection handler thread with a connection still open -- shutdown never completes, and the listeners, pid file and port file '
+                     'that are released after this point stay behind' % (fn.qualname, norm(c_.func.value)[:40]))
+    if n8 == 0:
+        raise AnalysisError('anchor vanished: no thread / process join found in proxy/**')
     # ---------------- C19.6 sender / receiver agreement on the address message
     dw = prog.function('proxy.core.work.delegate', 'delegate_work_to_pool')
     rx = prog.own_method('RemoteFdExecutor', 'receive_from_work_queue')
